@@ -158,8 +158,11 @@ def run(pid, tier, seed=0, jobs=None, only=None, verbose=False):
     res = summarise(pid, tier, seed, outs, lemma_results, assumed, time.time() - t0, verbose)
     res['bounded'] = run_bounded(pid, tier)
     res['wall'] = time.time() - t0
-    if pid == 'C14':
-        from pyvc.audit_c14 import run_audit as audit14
+    if pid in ('C14', 'C09'):
+        if pid == 'C14':
+            from pyvc.audit_c14 import run_audit as audit14
+        else:
+            from pyvc.audit_c09 import run_audit as audit14
         sites = audit14(_REPO)
         res['audit'] = dict(sites=sites, inferred={})
         for s_ in sites:
